@@ -7,7 +7,8 @@ SPEC = {'level': 'exploration',
                  'all pool transactions are independent, final and above the block minimum fee, so a template holds the whole pool (cross-checked with a fresh template before use)',
                  'regtest (test chain: the 20-minute rule is active); a 60 s real-time watchdog only marks a round inconclusive'],
  'stages': [gen('vh_c65', 'c65_waitnext', 400, 12000, min_cases_quick=120, replays_needed=2, replays_total=5,
-                floors={'ret:new-tip': 0.2, 'ret:null-interrupt': 0.05, 'ret:same-tip-fees': 0.05, 'ret:same-tip-20min': 0.05, 'event-inside-wait-window': 0.15, 'tip-differed-at-start': 0.1},
+                floors={'ret:new-tip': 0.2, 'ret:null-interrupt': 0.05, 'ret:same-tip-fees': 0.05, 'ret:same-tip-20min': 0.05, 'event-inside-wait-window': 0.15, 'tip-differed-at-start': 0.1,
+                        'fees-cross-2^31-up': 0.03, 'fees-cross-2^31-down': 0.03},
                 rule='waiter thread vs driver events under a mock clock; non-trivial = an event provably inside a wait window and >=2 conclusive rounds'),
             gen('vh_c65', 'c65_waitnext_tsan', 24, 2400, cfg='tsan', workers_quick=4, workers_thorough=8, min_cases_quick=8, replays_needed=2, replays_total=5,
                 rule='same target in the ThreadSanitizer build (any TSan / lock-order report is a failure)')]}
